@@ -107,7 +107,7 @@ def correspond(ctx, kinds=(1, 2, 3)):
     if kinds == (1, 2, 3):
         # static_assert as translated into Gen/Dispatch.v: interpreter vs code
         from harness import dispatchcorr
-        dispatchcorr.correspond_dispatch(ctx, corr, only=('static_assert',))
+        dispatchcorr.correspond_dispatch(ctx, corr, only=('static_assert', 'attribute', '__attribute__', '__declspec'))
     return corr
 
 
